@@ -51,6 +51,16 @@ fn main() {
                 vec!["allocation bound: 64 KiB + 64 x bytes sent (a parsed header costs about 50 bytes of bookkeeping for as little as 5 bytes on the wire, and vectors double)", "a child killed by the harness watchdog is inconclusive, a child that dies by itself (abort, signal) is a violation"],
             )
         }
+        "C07" => {
+            let mut p = make_part("real-edge", "CONV/sock", cli.cases(40, 2_000), props_sock2::c07_real_edge_strategy, |_| (), |w, c| props_sock2::c07_real_edge_test(w, c));
+            p.max_workers = Some(4);
+            p.max_shrink_iters = 4;
+            parts.push(p);
+            (
+                "part real-edge (real threads, real clock): one thread in recv_timeout(1-40 ms) once, one thread in recv(), a request written 0.15-3 ms before the timeout runs out; oracle: the request reaches one of the two within 3 s (it is a violation only if it is then still queued while the second thread is still blocked); non-trivial: the timed receiver came back empty-handed and the blocked one got the request",
+                vec!["real-time part: which receiver the kernel wakes and where the write lands relative to the deadline are not controlled; cases that miss the window are counted as trivial"],
+            )
+        }
         "C08" => {
             let mut p = make_part("real-idle", "CONV/sock", cli.cases(30, 3_000), props_sock2::c08_real_strategy, |_| (), |w, c| props_sock2::c08_real_test(w, c));
             p.max_workers = Some(8);
